@@ -98,7 +98,7 @@ impl Property for C01 {
         // small-scope exhaustive part: every ordered pair / triple of small documents must be admitted
         let scopes: &[(usize, usize)] = match tier {
             Tier::Quick => &[(3, 2), (2, 3)],
-            Tier::Thorough => &[(4, 2), (3, 3)],
+            Tier::Thorough => &[(4, 2), (2, 3)],
         };
         for (max_nodes, arity) in scopes {
             let (evals, nts, fail) = super::smallscope::run_tuples(*max_nodes, *arity, |docs, bytes| {
@@ -119,7 +119,7 @@ impl Property for C01 {
             }
         }
         if tier == Tier::Thorough {
-            let runs = std::env::var("XSGV_FUZZ_RUNS").ok().and_then(|s| s.parse().ok()).unwrap_or(125_000u64);
+            let runs = std::env::var("XSGV_FUZZ_RUNS").ok().and_then(|s| s.parse().ok()).unwrap_or(15_000u64);
             let seeds: Vec<Vec<u8>> = crate::runner::gen_tapes(self, seed ^ 0x7a9e, 200)
                 .into_iter()
                 .map(|t| {
@@ -147,7 +147,7 @@ impl Property for C01 {
         }
     }
     fn rule(&self) -> String {
-        "small-scope exhaustive: all ordered pairs of documents over {r; a,b; attribute k; text} with <= 3 elements and all triples with <= 2 (thorough: <= 4 / <= 3); sampled: tape-decoded sequences of 1..5 well-formed documents (all name classes, full surface variation, 1 in 8 wide); every source document is walked against the struct tree read from the rendering (attributes/children bound, required fields present, non-Vec fields at most once, character data only where a text field or String exists). Non-trivial = the sequence forces at least one Option or Vec decision (an attribute or child absent from some occurrence, or a repeated child); distinct by hash of the structural documents.".into()
+        "small-scope exhaustive: all ordered pairs of documents over {r; a,b; attribute k; text} with <= 3 elements and all triples with <= 2 (thorough: pairs with <= 4); sampled: tape-decoded sequences of 1..5 well-formed documents (all name classes, full surface variation, 1 in 8 wide); every source document is walked against the struct tree read from the rendering (attributes/children bound, required fields present, non-Vec fields at most once, character data only where a text field or String exists). Non-trivial = the sequence forces at least one Option or Vec decision (an attribute or child absent from some occurrence, or a repeated child); distinct by hash of the structural documents.".into()
     }
     fn assumptions(&self) -> Vec<String> {
         vec![
